@@ -49,6 +49,7 @@ LEVEL = "exploration"
 TECHNIQUE = ("deterministic simulation: real Request.writeTo with a scripted asynchronous IBodyProducer under simulated transport "
              "back-pressure/cancel; bytes parsed by h11 (server role) against the intended request")
 QUICK_RUNS = 250000
+TWIN_P = 0.08   # this share of the runs drives two independent instances of the scenario one after the other (detsim.runner._run_scenario)
 BATCH = 1000
 RUN_WALL_LIMIT_S = 120   # runs take milliseconds; generous so that an overloaded host is not mistaken for a hang
 COMPONENTS = {"real": ["twisted.web._newclient.Request (writeTo, _writeHeaders, _writeToBodyProducer*, stopWriting)",
